@@ -44,7 +44,7 @@ def load_rules(prop: str):
 from sa.engine import CONTRACT_SCOPE, run_rules  # noqa: E402,F401
 
 
-PRESENCE_KEYS = ("contract:", "requested-fraction-rebound", "mapper-keywords", "config-arg-as-given", "index-truthiness", "index-list-mutated", "unweighted-statistic", "blob-rows-are-lists", "reshape-for-transpose", "precision-downgrade", "n_total-forwarded", "import-converted", "clusterer-wiring", "copy-flag-rebound", "single-mode-agreement", "eigh-rows", "ess-lossy", "set-order-layout", "first-iteration-guard", "lost-fancy-store", "kernel-parameter-rebound", "rename-on-error", "column-density", "fancy-accumulate", "density-unregularised", "retained-state-copy", "caller-array-write", "handed-out-logw-modified", "temperature-rebound", "stride-assumption", "seed-transformed", "checkpoint-seed", "draw-cached", "import-time-draw", "stream-rewind", "pool-cached", "pool-read", "vectorize-read",
+PRESENCE_KEYS = ("wrapper-binding", "contract:", "requested-fraction-rebound", "mapper-keywords", "config-arg-as-given", "index-truthiness", "index-list-mutated", "unweighted-statistic", "blob-rows-are-lists", "reshape-for-transpose", "precision-downgrade", "n_total-forwarded", "import-converted", "clusterer-wiring", "copy-flag-rebound", "single-mode-agreement", "eigh-rows", "ess-lossy", "set-order-layout", "first-iteration-guard", "lost-fancy-store", "kernel-parameter-rebound", "rename-on-error", "column-density", "fancy-accumulate", "density-unregularised", "retained-state-copy", "caller-array-write", "handed-out-logw-modified", "temperature-rebound", "stride-assumption", "seed-transformed", "checkpoint-seed", "draw-cached", "import-time-draw", "stream-rewind", "pool-cached", "pool-read", "vectorize-read",
                  "cached-mutation", "inplace:", "shared-history-list", "foreign-rebind", "alias-mutation", "errstate-underflow", "weights-dtype", "wrapper-stateless", "wrapper-branch",
                  "wrapper-argument", "logl-rewritten", "logl-dtype", "partial-row-copy", "multinomial-pvals-tolerance", "rank-index", "mode-attr-write", "shared-clusterer-rebound",
                  "spectral-floor", "row-gather", "fold-guard-jump", "fold-exact", "unpicklable-attr", "retry-loop", "iter-seed", "facade-partial-selection",
@@ -346,13 +346,37 @@ def main(argv=None) -> int:
     r.add_argument("path")
     sub.add_parser("setup")
     args = ap.parse_args(argv)
+    def _guarded(prop, tier, repo, **kw):
+        """One check under a wall-clock budget: an analysis that does not terminate in time is undecided (exit 2),
+        never a hang and never an alarm."""
+        import signal
+
+        budget = int(os.environ.get("SA_TIME_BUDGET", "900" if tier == "quick" else "3600"))
+
+        class _Timeout(BaseException):
+            pass
+
+        def _on_alarm(signum, frame):
+            raise _Timeout()
+
+        old = signal.signal(signal.SIGALRM, _on_alarm)
+        signal.alarm(budget)
+        try:
+            return check(prop, tier, repo, **kw)
+        except _Timeout:
+            print(f"ANALYSIS-ERROR property={prop} analysis did not finish within {budget} s (undecided)")
+            return 2
+        finally:
+            signal.alarm(0)
+            signal.signal(signal.SIGALRM, old)
+
     if args.cmd == "check":
-        return check(args.prop.upper(), args.tier, args.repo)
+        return _guarded(args.prop.upper(), args.tier, args.repo)
     if args.cmd == "all":
         worst = 0
         for p in PROPS:
             try:
-                rc = check(p, args.tier, args.repo, write=args.repo is None)
+                rc = _guarded(p, args.tier, args.repo, write=args.repo is None)
             except SystemExit as e:  # pragma: no cover
                 rc = int(e.code or 0)
             worst = max(worst, rc)
